@@ -32,11 +32,11 @@ CHECKS = {
     "C08": dict(
         category="proof",
         technique="static analysis: influence (data + control dependence) analysis of every XOR-accumulate in ZobristHasher::hash mapped to State fields "
-                  "through accessor read-sets, loop-distinctness of folded keys, key-table provenance/arity in ZobristHasher::with, call-graph effect check, "
+                  "through accessor read-sets, loop-distinctness of folded keys, full-enumeration drivers of the loops around the placement XOR, key-table provenance/arity in ZobristHasher::with, call-graph effect check, "
                   "def-use provenance of every key consumed by table/history/book",
         text="Proof (up to the assumed 2^-64 collision chance of independent keys) that the hash is 0 XOR per-component keys: every rule-relevant component "
              "(placement, side, castling rights, en passant target) influences exactly its own folded keys, the clock influences none, keys come from the "
-             "caller's Rng with enough arity, no key can be folded twice inside a loop, hash is pure, and every consumer key is the result of this hash. "
+             "caller's Rng with enough arity, no key can be folded twice inside a loop, the placement loops run over every colour, kind and set bit, hash is pure, and every consumer key is the result of this hash. "
              "Holds for all positions/seeds at once; tests sample a handful of positions.",
         design_ref="DESIGN.md section 4, C08",
         note=TB_COMMON + " 64-bit collisions of independent random keys are ignored; rule H5.component deliberately rejects keys that mix several State components (unproven refinements)."),
@@ -226,7 +226,8 @@ CHECKS = {
              "scored evaluate(state, side to move, ply of the node); every use of a probed entry is under entry.max_depth - entry.depth >= max_depth - "
              "current_depth, returned only if Exact or the window closed; root window (-mate_in_ply(0), mate_in_ply(0)) at ply 0; workers merged by max; "
              "deepening stops early only at best_eval >= POS_INF; quiescence: stand-pat for quiet positions, fail-hard on stand-pat >= beta, captures only; "
-             "Evaluation's negation and ordering are numeric; mate scores monotone in the ply (C05 V3 re-run).",
+             "Evaluation's negation and ordering are numeric; mate scores monotone in the ply (C05 V3 re-run); a constant score is returned by a node only on a path "
+             "guarded by the history lookup (R14); the successor function's rules (C02 U) are re-run.",
         design_ref="DESIGN.md section 4, C06",
         note=TB_COMMON + " C03 (only legal moves searched), C05 (terminal scores), C08/C15 (table keys and faithfulness) are assumed."),
 }
